@@ -771,12 +771,22 @@ class CountControlConstructionToken(CompositeBaseToken):
             if hasattr(expression.left_operand, 'matrix') and expression.left_operand.matrix is not None
         ]
 
+    @staticmethod
+    def _is_matrix(expression) -> bool:
+        return getattr(expression.left_operand, 'matrix', None) is not None
+
+    @staticmethod
+    def _is_cell(expression) -> bool:
+        # an expression without a left operand (a signed value such as -3) is neither a matrix nor a cell
+        value = getattr(expression.left_operand, 'value', None)
+        return bool(value) and isinstance(value[0], CellIdentifierToken)
+
     @property
     def arg_cells(self) -> list[CellIdentifierToken]:
         return [
             expression.left_operand.value[0]
             for expression in self.value[2].expressions
-            if isinstance(expression.left_operand.value[0], CellIdentifierToken)
+            if self._is_cell(expression)
         ]
 
     @property
@@ -784,7 +794,7 @@ class CountControlConstructionToken(CompositeBaseToken):
         return [
             expression
             for expression in self.value[2].expressions
-            if isinstance(expression.left_operand.value[0], LiteralToken)
+            if not self._is_matrix(expression) and not self._is_cell(expression)
         ]
 
 
